@@ -43,9 +43,10 @@ def check(ctx: Ctx) -> str:
     subst = [a for a in ast.walk(loops_[0]) if isinstance(a, ast.Assign) and ast.unparse(a.value) == "default" and isinstance(a.targets[0], ast.Name)]
     ok_d = len(subst) == 1
     if ok_d:
-        at_ = astq.guard_atoms(loops_[0], subst[0])
+        at_ = [a_ for a_ in astq.guard_atoms(mg.node, subst[0]) if a_ not in astq.guard_atoms(mg.node, loops_[0])]  # (named sub-tests such as `has_default = default is not None` are resolved)
         itv = subst[0].targets[0].id  # type: ignore[attr-defined]
-        ok_d = ("default is None", False) in at_ and (f"isinstance({itv}, Undefined)", True) in at_ and len(at_) == 2
+        need_ = [("default is None", False), (f"isinstance({itv}, Undefined)", True)]
+        ok_d = all(a_ in at_ for a_ in need_) and all(a_ in need_ or a_[0].isidentifier() for a_ in at_)
     ctx.check(ok_d, "make_attrgetter:default-per-part", "filters:make_attrgetter", "default not substituted after each part of the path",
               "make_attrgetter must replace an undefined intermediate value by `default` inside the loop over the dotted path (under exactly `default is not None and isinstance(item, Undefined)`): applied only after the loop, `map(attribute='address.city', default='?')` raises UndefinedError for an item without `address` instead of yielding the default",
               mg.loc(loops_[0]))
@@ -63,7 +64,7 @@ def check(ctx: Ctx) -> str:
     so = repo.func("filters:do_sort")
     ctx.check("sorted(value, key=key_func, reverse=reverse)" in ast.unparse(so.node), "sort:stable", "filters:do_sort", "sorted()", "sort must use sorted() (stable) with the attribute key and reverse flag", so.loc())
     gb = repo.func("filters:sync_do_groupby")
-    ctx.check("groupby(sorted(value, key=expr), expr)" in ast.unparse(gb.node), "groupby:sorted", "filters:sync_do_groupby", "sort before grouping with the same key", "groupby must group the input sorted by the same key function", gb.loc())
+    ctx.check("groupby(sorted(value, key=expr), expr)" in gb.ntext, "groupby:sorted", "filters:sync_do_groupby", "sort before grouping with the same key", "groupby must group the input sorted by the same key function", gb.loc())
 
     ctx.rule("R6", "slice / batch arithmetic as linear forms; fill rules")
     sl = repo.func("filters:sync_do_slice")
